@@ -126,6 +126,11 @@ class HNative:
             setattr(m, name, old)
         self._patched = []
 
+    def bare(self, cls):
+        o = cls.__new__(cls)
+        self.torch.nn.Module.__init__(o)
+        return o
+
     def set_requires_grad(self, t, v):
         t.requires_grad_(bool(v))
 
@@ -337,6 +342,12 @@ class HNative:
         g.output(prev)
         gm = fx.GraphModule(root, g)
         return gm, [n for n in gm.graph.nodes if n.op == 'call_module']
+
+    def fx_function_node(self, fn, n_inputs, extra_args=(), kwargs=None):
+        import torch.fx as fx
+        g = fx.Graph()
+        ins = tuple(g.placeholder('x%d' % i) for i in range(n_inputs))
+        return g.call_function(fn, (ins,) + tuple(extra_args), dict(kwargs or {}))
 
     def fx_run(self, gm, x):
         gm.graph.lint()
